@@ -47,6 +47,27 @@ def W(v):
     raise TypeError(repr(v))
 
 
+def WX(v):
+    """abstract float (Fraction = finite, or a Python float special) -> wire xfloat"""
+    if isinstance(v, Fr):
+        return [0, v]
+    if isinstance(v, float):
+        if v != v:
+            return [1]
+        if v == float("inf"):
+            return [2]
+        if v == float("-inf"):
+            return [3]
+    raise TypeError(repr(v))
+
+
+def m_x(w):
+    """wire xfloat -> normal form shared with i_val"""
+    if w[0] == 0:
+        return m_q(w[1])
+    return ("x", ["", "nan", "inf", "-inf"][w[0]])
+
+
 def Wopt(v):
     return [] if v is ABSENT else [W(v)]
 
